@@ -26,7 +26,7 @@ var Wiring = map[string]any{
 
 var NotCovered = []string{
 	"mempool, p2p, bft and the real controller (its HandleSwaps/HandleDex/SendCertificateResultsTx are mirrored, not executed); ProcessRootChainOrderBook/ParseBlockForLockAndCloseOrders (honest derivation of lock/close/reset from memo transactions)",
-	"LP-holder cap logic (handleCappedBatchDeposit, eviction at 5000 providers), the 250-orders-per-block settlement cap, batches of more than 2 orders, more than 2 open sell orders / 2 sellers, order amounts other than {min-1,min,min+1,10^6}",
+	"the provider cap is explored in ONE configuration (10^6 x 10^6, lowest holder 100 points, four deposit sizes); ties between equally funded newcomers and more than one newcomer per batch are not; the 250-orders-per-block settlement cap, batches of more than 2 orders, more than 2 open sell orders / 2 sellers, order amounts other than {min-1,min,min+1,10^6}",
 	"fairness of LP point minting (how many points a deposit earns): the property only fixes the sum of points and the share bound of withdrawals, so the mutant 'deposit points computed after the pool update' is NOT caught",
 	"the pseudo-random execution order of swaps inside a batch is whatever the previous block hash yields on the explored path; other orders are not enumerated",
 	"stale root view combined with a user transaction or with the fallback in the same tick; re-ordered (older-after-newer) certificate-results transactions",
@@ -144,6 +144,28 @@ func Plan(thorough bool, run RunFn) {
 		}
 		return out
 	}
+	// provider-cap configuration: its own alphabet; full alphabet for the first fullDepth ticks, then the pipeline drains
+	alphaC := CappedAlphabet()
+	namesC := func(p []int) []string {
+		var n []string
+		for _, i := range p {
+			n = append(n, alphaC[i].String())
+		}
+		return n
+	}
+	C := func(depth, fullDepth int) {
+		if only == "" || only == "B" || only == "C" {
+			run("B", "1e6x1e6-capped", depth, namesC, len(alphaC), func(path []int, _ string) []int {
+				var out []int
+				for i, o := range alphaC {
+					if len(path) < fullDepth || o.Kind == "tick" || o.Kind == "drop" {
+						out = append(out, i)
+					}
+				}
+				return out
+			}, share)
+		}
+	}
 	F := func(cfg string) {
 		if only == "" || only == "B" || only == "F" {
 			run("B", cfg+"#fallback-slice", 5, namesB, len(alphaB), famOps, share)
@@ -156,6 +178,7 @@ func Plan(thorough bool, run RunFn) {
 		F("1e3x1e3")
 		F("1e3x1e3-nolp") // seeded liquidity, no liquidity provider: the root's point list is empty when the fallback fires
 		B("1e3x1e3", 2, 2)
+		C(3, 1)
 		A("own", 2, 2)
 		B("2p63x2p63", 2, 2)
 		B("1x2p62", 2, 2)
@@ -163,6 +186,7 @@ func Plan(thorough bool, run RunFn) {
 		B("1e3x1e3-nolp", 2, 2)
 		A("tx", 3, 3)
 		A("own", 3, 3)
+		C(4, 2)
 		B("1e3x1e3", 3, 3)
 		A("own", 4, 3) // the path on which duplicates inside one list reach the handler: create, create, lock, settle
 		A("tx", 4, 3)
@@ -181,8 +205,11 @@ func Plan(thorough bool, run RunFn) {
 	F("1e3x1e3-nolp")
 	A("tx", 4, 4)
 	for _, c := range BConfigs {
-		B(c.Name, 3, 3)
+		if !c.Capped {
+			B(c.Name, 3, 3)
+		}
 	}
+	C(4, 2)
 	A("own", 4, 4)
 	B("1e3x1e3", 4, 3)
 	A("tx", 5, 4)
@@ -192,6 +219,7 @@ func Plan(thorough bool, run RunFn) {
 	B("1x1", 4, 4)
 	A("own", 5, 4)
 	B("1e3x1e3", 5, 4)
+	C(5, 3)
 	A("tx", 5, 5)
 }
 
@@ -211,7 +239,7 @@ func PathA(ops []string) []int {
 }
 
 func PathB(cfg string, ops []string) []int {
-	alpha := BAlphabet(true)
+	alpha := AlphaFor(cfg, true)
 	var p []int
 	for _, n := range ops {
 		for i, a := range alpha {
@@ -237,8 +265,32 @@ func probeB() {
 		panic("no recipe " + s)
 	}
 	Debug = os.Getenv("C20_DEBUG") != ""
+	if os.Getenv("C20_CFG") == "1e6x1e6-capped" {
+		alpha = CappedAlphabet()
+		for _, seq := range [][]string{
+			{"tick", "tick"},
+			{"depositN(Q,small)", "tick", "tick", "tick"},
+			{"depositN(Q,split)", "tick", "tick", "tick"},
+			{"depositN(Q,split-big)", "tick", "tick", "tick"},
+			{"depositR(Q,split)", "tick", "tick", "tick"},
+			{"depositN(Q)", "tick", "tick", "tick"},
+			{"withdrawN(P,100%)", "tick", "depositN(Q,small)", "tick", "tick"},
+		} {
+			var p []int
+			for _, s := range seq {
+				p = append(p, find(s))
+			}
+			t0 := time.Now()
+			res := ExecB("1e6x1e6-capped", true, p)
+			fmt.Printf("probeB cfg=capped %v -> ok=%v key=%s viols=%d (%.1f ms)\n", seq, res.OK, res.Key, len(res.Viols), float64(time.Since(t0).Microseconds())/1000)
+			for _, v := range res.Viols {
+				fmt.Printf("   %s: %s\n", v.Sig, v.What)
+			}
+		}
+		return
+	}
 	for _, cfg := range BConfigs {
-		if f := os.Getenv("C20_CFG"); f != "" && f != cfg.Name {
+		if f := os.Getenv("C20_CFG"); (f != "" && f != cfg.Name) || cfg.Capped {
 			continue
 		}
 		for _, seq := range [][]string{
